@@ -284,6 +284,9 @@ type c10mem struct {
 	budget   int
 	mayWrite map[string]bool
 	busyW    map[*ssa.Function]bool
+	// stopAtRoot: the walk does not descend into the call that made the root pointer; reaching it is recorded in
+	// c10walkRes.rootCall (the location then holds what the constructor left there: c10_fields.go, definition-point terms)
+	stopAtRoot bool
 }
 
 func (m *c10mem) locKey(l c10loc) string {
@@ -360,6 +363,7 @@ func (m *c10mem) callMayWrite(cc *ssa.CallCommon, r c10loc, depth int) bool {
 // c10src: one value a load can observe.
 type c10src struct {
 	val  ssa.Value // nil: the zero value
+	fld  int       // k+1: field k of the struct value val (the location was written by a store of the whole struct)
 	blk  *ssa.BasicBlock
 	asm  []c10asm
 	same bool // found in the function of the query itself, without passing through a call
@@ -372,9 +376,10 @@ type c10src struct {
 }
 
 type c10walkRes struct {
-	srcs    []c10src
-	entry   bool                     // the entry of the function was reached on some path
-	crossed map[ssa.Instruction]bool // instructions passed on the way (top function only)
+	srcs     []c10src
+	entry    bool                     // the entry of the function was reached on some path
+	rootCall bool                     // (stopAtRoot) the call that made the root pointer was reached on some path
+	crossed  map[ssa.Instruction]bool // instructions passed on the way (top function only)
 }
 
 // sources walks backwards from instruction `at` (exclusive) in its function. anchor is the constraint system of the
@@ -414,12 +419,22 @@ func (m *c10mem) sources(loc c10loc, at ssa.Instruction, self ssa.Value, anchor 
 					stopped = true
 					continue
 				case *ssa.Call:
+					if m.stopAtRoot && depth == 0 {
+						res.rootCall = true
+						stopped = true
+						continue
+					}
 					if !m.resultSources(x, 0, loc, anchor, depth, &res) {
 						return res, false
 					}
 					stopped = true
 					continue
 				case *ssa.Extract:
+					if m.stopAtRoot && depth == 0 {
+						res.rootCall = true
+						stopped = true
+						continue
+					}
 					call, ok := x.Tuple.(*ssa.Call)
 					if !ok || !m.resultSources(call, x.Index, loc, anchor, depth, &res) {
 						return res, false
@@ -439,6 +454,15 @@ func (m *c10mem) sources(loc c10loc, at ssa.Instruction, self ssa.Value, anchor 
 					res.srcs = append(res.srcs, c10src{val: x.Val, blk: x.Block(), same: depth == 0 && !summary, local: true})
 					stopped = true
 					continue
+				}
+				// a store of the whole struct the location is a field of (h := decode(data); *h = v; ... h.n): the
+				// location holds that field of the stored struct value
+				if w.root == loc.root && len(w.path)+1 == len(loc.path) && c10prefix(w.path, loc.path) && loc.path[len(w.path)].field {
+					if _, isStruct := x.Val.Type().Underlying().(*types.Struct); isStruct {
+						res.srcs = append(res.srcs, c10src{val: x.Val, fld: int(loc.path[len(w.path)].idx) + 1, blk: x.Block(), same: depth == 0 && !summary, local: true})
+						stopped = true
+						continue
+					}
 				}
 				if c10mayAlias(w, loc, true) {
 					return res, false
@@ -702,7 +726,16 @@ func (d *c10dbm) importLoad(t c10term, x *ssa.UnOp, i int) {
 	}
 	d.px.loadBusy[x] = true
 	defer delete(d.px.loadBusy, x)
-	term := func(v ssa.Value) c10term {
+	d.importLoc(t, loc, x, i, true)
+}
+
+// importLoc: node i stands for (the length of) what is found at location loc when the load x executes - the value
+// the load yields (own: loc is the location x reads), or one field of the struct it yields (loc names that field).
+func (d *c10dbm) importLoc(t c10term, loc c10loc, x *ssa.UnOp, i int, own bool) {
+	term := func(v ssa.Value, fld int) c10term {
+		if fld != 0 {
+			return c10term{v: v, isLen: t.isLen, fld: fld}
+		}
 		if t.isLen {
 			return c10len(v)
 		}
@@ -715,9 +748,20 @@ func (d *c10dbm) importLoad(t c10term, x *ssa.UnOp, i int) {
 	}
 	// every path to the load passes a store of, or an earlier load yielding, one and the same value of this function,
 	// not computed anew in between: the load IS that value
-	if cv := d.px.canon(x, d.px.at(x.Block(), d.depth)); cv != ssa.Value(x) { // judged under the block's facts only (memoised)
-		d.eq(i, d.node(term(cv)), 0)
+	var memo *ssa.UnOp
+	if own {
+		memo = x
+	}
+	if cv, cf := d.px.canonAt(loc, x, x, d.px.at(x.Block(), d.depth), memo); cv != nil { // judged under the block's facts only (memoised)
+		d.eq(i, d.node(term(cv, cf)), 0)
 		return
+	}
+	// nothing has written the location since the pointer it is reached through came into being (the entry of the
+	// function for a parameter, the constructor call for its result): the definition-point term of that pointer
+	// (the bounds of what the callers' memory holds are imported below as well: the definition-point term has them
+	// only when every caller's location resolves to a term of its own)
+	if dt, ok := d.px.defPointTerm(loc, x, x, anchor, t.isLen); ok {
+		d.eq(i, d.node(dt), 0)
 	}
 	m := &c10mem{px: d.px, budget: 6000, mayWrite: d.px.mayWrite, busyW: map[*ssa.Function]bool{}}
 	res, ok := m.sources(loc, x, x, anchor, 0, false)
@@ -735,18 +779,21 @@ func (d *c10dbm) importLoad(t c10term, x *ssa.UnOp, i int) {
 			lo, hi = min(lo, 0), max(hi, 0)
 			continue
 		}
-		if !t.isLen && !isIntType(s.val.Type()) {
+		if s.fld == 0 && !t.isLen && !isIntType(s.val.Type()) {
+			return
+		}
+		if s.fld != 0 && !c10fieldTermOK(s.val, s.fld-1, t.isLen) {
 			return
 		}
 		sd := d.px.atAssume(s.blk, d.depth+1, s.asm)
-		l, ok1 := sd.lower(term(s.val))
-		u, ok2 := sd.upper(term(s.val), c10term{})
+		l, ok1 := sd.lower(term(s.val, s.fld))
+		u, ok2 := sd.upper(term(s.val, s.fld), c10term{})
 		if s.blk2 != nil && s.blk2 != s.blk {
 			sd2 := d.px.atAssume(s.blk2, d.depth+1, s.asm2)
-			if l2, ok := sd2.lower(term(s.val)); ok && (!ok1 || l2 > l) {
+			if l2, ok := sd2.lower(term(s.val, s.fld)); ok && (!ok1 || l2 > l) {
 				l, ok1 = l2, true
 			}
-			if u2, ok := sd2.upper(term(s.val), c10term{}); ok && (!ok2 || u2 < u) {
+			if u2, ok := sd2.upper(term(s.val, s.fld), c10term{}); ok && (!ok2 || u2 < u) {
 				u, ok2 = u2, true
 			}
 		}
@@ -780,34 +827,128 @@ func (px *c10prover) canon(x *ssa.UnOp, anchor *c10dbm) ssa.Value {
 	if !ok {
 		return out
 	}
+	if cv, cf := px.canonAt(loc, x, x, anchor, nil); cv != nil && cf == 0 {
+		out = cv
+	}
+	return out
+}
+
+// canonAt: the one value of the load's own function that is found at location loc when the load x executes (loc is
+// the location x reads, or a field of the struct x reads); with fld != 0 it is field fld-1 of that (struct) value: the
+// location was last written by a store of a whole struct. (nil, 0) when there is no such single value. memo: loc is
+// the location of the load memo itself (the result is remembered per load). at: the instruction the question is asked at
+// (the load, a call whose argument points at the location, a return); self: the load itself, if any.
+func (px *c10prover) canonAt(loc c10loc, at ssa.Instruction, self ssa.Value, anchor *c10dbm, memo *ssa.UnOp) (ssa.Value, int) {
+	if memo != nil {
+		if cv := px.canon(memo, anchor); cv != ssa.Value(memo) {
+			return cv, 0
+		}
+	}
 	m := &c10mem{px: px, budget: 6000, mayWrite: px.mayWrite, busyW: map[*ssa.Function]bool{}}
-	res, ok := m.sources(loc, x, x, anchor, 0, false)
+	res, ok := m.sources(loc, at, self, anchor, 0, false)
 	if !ok || res.entry || len(res.srcs) == 0 {
-		return out
+		return nil, 0
 	}
 	passed := func(v ssa.Value) bool {
 		def, isInstr := v.(ssa.Instruction)
 		return isInstr && res.crossed[def]
 	}
 	var one ssa.Value
+	oneFld := 0
 	for _, s := range res.srcs {
 		if s.val == nil || !s.same || passed(s.val) {
-			return out
+			return nil, 0
 		}
-		cv := s.val
-		if l, isLoad := cv.(*ssa.UnOp); isLoad && l.Op == token.MUL {
+		cv, cf := s.val, s.fld
+		if l, isLoad := cv.(*ssa.UnOp); isLoad && l.Op == token.MUL && ssa.Value(l) != self {
+			// a load (of the value itself, or of the struct the value is a field of): what that load observes
 			cv = px.canon(l, px.at(l.Block(), anchor.depth))
 			if passed(cv) {
-				return out
+				return nil, 0
 			}
 		}
-		if one != nil && cv != one {
-			return out
+		if one != nil && (cv != one || cf != oneFld) {
+			return nil, 0
 		}
-		one = cv
+		one, oneFld = cv, cf
 	}
-	if one != nil {
-		out = one
+	return one, oneFld
+}
+
+// c10ptrStructOf: the struct a pointer type points to.
+func c10ptrStructOf(t types.Type) *types.Struct {
+	if el := c10deref(t); el != nil {
+		st, _ := el.Underlying().(*types.Struct)
+		return st
 	}
-	return out
+	return nil
+}
+
+// defPointTerm: loc is a field of the struct a pointer parameter / the pointer result of a call points to, and on no
+// path from the definition of that pointer (the entry of the function; the call) to `at` anything may have written it:
+// the location holds what it held when the pointer came into being - the DEFINITION-POINT term c10term{v: pointer,
+// fld: k+1} (c10_fields.go).
+func (px *c10prover) defPointTerm(loc c10loc, at ssa.Instruction, self ssa.Value, anchor *c10dbm, isLen bool) (c10term, bool) {
+	if len(loc.path) != 1 || !loc.path[0].field || at.Parent() == nil {
+		return c10term{}, false
+	}
+	k := int(loc.path[0].idx)
+	if !c10fieldTermOK(loc.root, k, isLen) || c10ptrStructOf(loc.root.Type()) == nil {
+		return c10term{}, false
+	}
+	switch root := loc.root.(type) {
+	case *ssa.Parameter:
+		if root.Parent() != at.Parent() {
+			return c10term{}, false
+		}
+	case *ssa.Call:
+		if root.Parent() != at.Parent() || root.Call.IsInvoke() {
+			return c10term{}, false
+		}
+	case *ssa.Extract:
+		if call, ok := root.Tuple.(*ssa.Call); !ok || root.Parent() != at.Parent() || call.Call.IsInvoke() {
+			return c10term{}, false
+		}
+	default:
+		return c10term{}, false
+	}
+	m := &c10mem{px: px, budget: 6000, mayWrite: px.mayWrite, busyW: map[*ssa.Function]bool{}, stopAtRoot: true}
+	res, ok := m.sources(loc, at, self, anchor, 0, true)
+	if !ok || len(res.srcs) != 0 {
+		return c10term{}, false
+	}
+	if _, isParam := loc.root.(*ssa.Parameter); isParam != res.entry || isParam == res.rootCall {
+		return c10term{}, false
+	}
+	return c10term{v: loc.root, isLen: isLen, fld: k + 1}, true
+}
+
+// locTermAt: the term for (the length of) what is found at location loc when instruction `at` executes: one value of
+// at's function (or a field of one), or the definition-point term of the pointer the location is reached through.
+func (px *c10prover) locTermAt(loc c10loc, at ssa.Instruction, anchor *c10dbm, isLen bool) (c10term, bool) {
+	if cv, cf := px.canonAt(loc, at, nil, anchor, nil); cv != nil {
+		switch {
+		case cf != 0:
+			if c10fieldTermOK(cv, cf-1, isLen) {
+				return c10term{v: cv, isLen: isLen, fld: cf}, true
+			}
+			return c10term{}, false
+		case isLen && c10hasLen(cv.Type()):
+			return c10len(cv), true
+		case !isLen && isIntType(cv.Type()):
+			return c10termOf(cv), true
+		}
+		return c10term{}, false
+	}
+	return px.defPointTerm(loc, at, nil, anchor, isLen)
+}
+
+// fieldLoc: the location of field k of the struct the pointer p points to.
+func c10fieldLoc(p ssa.Value, k int) (c10loc, bool) {
+	st := c10ptrStructOf(p.Type())
+	al, ok := c10locOf(p)
+	if st == nil || !ok || k < 0 || k >= st.NumFields() {
+		return c10loc{}, false
+	}
+	return c10loc{root: al.root, path: append(append([]c10step{}, al.path...), c10step{true, int64(k), st}), typ: st.Field(k).Type()}, true
 }
